@@ -11,7 +11,7 @@ import (
 // its (final) body refers to. The reference crawler reads only declarations.
 type Node struct {
 	URL      string            `json:"url"`
-	Kind     string            `json:"kind"` // html | bin | m3u8 | redirect | status | fail5xx | flaky | refuse
+	Kind     string            `json:"kind"` // html | bin | m3u8 | redirect | status | fail5xx | fail5xx-big | flaky | refuse | cut
 	Refs     []string          `json:"refs,omitempty"`
 	Location string            `json:"location,omitempty"`
 	Code     int               `json:"code,omitempty"`
@@ -83,6 +83,8 @@ func (d *SiteDef) Build() Site {
 			p.Script = append(p.Script, Resp{Status: 200, Header: map[string]string{"Content-Type": "image/png"}, Body: pngMagic})
 		case "refuse":
 			p.Script = []Resp{{Err: true}}
+		case "cut": // headers arrive, the connection breaks in the middle of the body
+			p.Script = []Resp{{Status: 200, Header: map[string]string{"Content-Type": "image/png"}, Body: pngMagic + strings.Repeat("\x00", 4096), CutAt: 100}}
 		}
 		s[n.URL] = &p
 	}
@@ -204,7 +206,7 @@ func (d *SiteDef) Reference(seed string, opt Options) *Expect {
 				attempts++
 				code := 404
 				switch kind {
-				case "html", "bin", "m3u8":
+				case "html", "bin", "m3u8", "cut":
 					code = 200
 				case "redirect":
 					code = n.Code
@@ -236,8 +238,8 @@ func (d *SiteDef) Reference(seed string, opt Options) *Expect {
 			}
 			e.Attempts[us] = attempts
 			e.Order = append(e.Order, us)
-			if final == -1 || n == nil {
-				continue
+			if final == -1 || n == nil || kind == "cut" {
+				continue // failed for good (a body that breaks after the headers is not retried)
 			}
 			if isRedirect(final) {
 				if r.redirects < opt.MaxRedirect {
